@@ -722,17 +722,36 @@ impl Family for E2eFamily {
                 c.streams[si].pattern = Pattern::SendEach;
                 out.push(c);
             }
-            for i in (0..st.payloads.len()).rev() {
-                let mut c = sc.clone();
-                c.streams[si].payloads.remove(i);
-                out.push(c);
-            }
-            for (i, (s, f)) in st.payloads.iter().enumerate() {
-                if *s > 4 {
+            // fewer payloads: halves and quarters first; single removals and single size
+            // reductions only for short lists (the candidate list is materialised, and a script
+            // of the many-small class holds thousands of payloads)
+            let n = st.payloads.len();
+            if n > 8 {
+                for (a, b) in [(0, n / 2), (n / 2, n), (0, n / 4), (n / 4, n / 2), (n / 2, 3 * n / 4), (3 * n / 4, n)] {
                     let mut c = sc.clone();
-                    c.streams[si].payloads[i] = (4, *f);
+                    c.streams[si].payloads.drain(a..b);
                     out.push(c);
                 }
+            }
+            if n <= 64 {
+                for i in (0..n).rev() {
+                    let mut c = sc.clone();
+                    c.streams[si].payloads.remove(i);
+                    out.push(c);
+                }
+                for (i, (s, f)) in st.payloads.iter().enumerate() {
+                    if *s > 4 {
+                        let mut c = sc.clone();
+                        c.streams[si].payloads[i] = (4, *f);
+                        out.push(c);
+                    }
+                }
+            } else if st.payloads.iter().any(|p| p.0 > 4) {
+                let mut c = sc.clone();
+                for p in c.streams[si].payloads.iter_mut() {
+                    p.0 = p.0.min(4);
+                }
+                out.push(c);
             }
         }
         out.into_iter().map(|s| serde_json::to_value(s).unwrap()).collect()
